@@ -59,11 +59,12 @@ def dl_due(S, ex, p):
 def c03_finality(ex, S, T):
     """a completed delivery stays completed with the same data (or is pruned) - every entry except seeks"""
     out = []
-    if T.kind == 'seek':
-        return out
     for i, p in D(S):
         q = postrow(S, 'Delivery', i)
         done = And(p.exists, Not(p.isnull('completed_at')))
+        if T.kind == 'seek':
+            # only a seek of that very subscription may rewind an acknowledgement
+            done = And(done, Not(Or(*[And(c, ex.eq(s.v['id'], p.v['subscription_id'])) for c, s in target_sub(S, ex, S.args)])))
         same = And(q.exists, Not(q.isnull('completed_at')), ex.eq(q.v['completed_at'], p.v['completed_at']),
                    ex.eq(q.v['attempt_at'], p.v['attempt_at']), ex.eq(q.v['attempts'], p.v['attempts']), ex.eq(q.v['expires_at'], p.v['expires_at']))
         if T.kind in PRUNE_KINDS:
@@ -664,4 +665,37 @@ def c15_prune(ex, S, T):
         out.append(('surviving-topic-unchanged[%d]' % j, Implies(q.exists, row_same(ex, tp, q))))
     for e in reldb.ENTITIES:
         out.append(('job-creates-nothing:' + e, len(S.post[e]) == len(S.pre[e])))
+    return out
+
+
+# ------------------------------------------------------------------ C05 (inductive lemma at publish / forward)
+def c05_predecessor(ex, S, T):
+    """a new keyed delivery on an ordered subscription is chained behind the latest-published live same-key delivery"""
+    out = []
+    if S.err is not None or T.kind != 'publish':
+        return out
+    a = S.args
+    nm = new_rows(S, 'Message')
+    if len(nm) != 1:
+        return out
+    m = nm[0]
+    for n_i, n in enumerate(new_rows(S, 'Delivery')):
+        for j, s in enumerate(S.pre['Subscription']):
+            mine = And(n.exists, ex.eq(n.v['subscription_id'], s.v['id']), s.exists)
+            keyed = And(s.v['ordered_delivery'], Not(m.isnull('order_key')), Not(ex.eq(m.v['order_key'], '')))
+            cands = []
+            for i, d in D(S):
+                same_key = Or(*[And(x.exists, ex.eq(x.v['id'], d.v['message_id']), Not(x.isnull('order_key')), ex.eq(x.v['order_key'], m.v['order_key']),
+                                    ex.eq(x.v['topic_id'], m.v['topic_id'])) for x in S.pre['Message']])
+                cands.append(And(d.exists, ex.eq(d.v['subscription_id'], s.v['id']), d.v['expires_at'] > m.v['published_at'], same_key))
+            # publish timestamps of the candidates are distinct (ties are outside the claim)
+            distinct = And(*[Implies(And(cands[i], cands[k]), Not(ex.eq(S.pre['Delivery'][i].v['published_at'], S.pre['Delivery'][k].v['published_at'])))
+                             for i in range(len(cands)) for k in range(i + 1, len(cands))])
+            none = Not(Or(*cands))
+            out.append(('unkeyed-or-unordered-has-no-predecessor[%d,sub %d]' % (n_i, j), Implies(And(mine, Not(keyed)), n.isnull('not_before_id'))))
+            out.append(('no-live-same-key-delivery-no-predecessor[%d,sub %d]' % (n_i, j), Implies(And(mine, keyed, none), n.isnull('not_before_id'))))
+            for i, d in D(S):
+                latest = And(cands[i], *[Implies(cands[k], S.pre['Delivery'][k].v['published_at'] < d.v['published_at']) for k in range(len(cands)) if k != i])
+                out.append(('chained-behind-latest-same-key[%d,sub %d,%d]' % (n_i, j, i),
+                            Implies(And(mine, keyed, distinct, latest), And(Not(n.isnull('not_before_id')), ex.eq(n.v['not_before_id'], d.v['id'])))))
     return out
